@@ -1,0 +1,72 @@
+//go:build verif
+
+package kapacitor
+
+// Verification hooks for the window node (property C03 of the /verif framework).
+// Add-only; compiled only with `-tags verif`. They expose the unexported per-group window receivers
+// (windowByTime / windowByCount) exactly as WindowNode.newWindow creates them, plus a read-only view of
+// the ring buffer indexes, so that a harness can drive one group's window message by message.
+
+import (
+	"time"
+
+	"github.com/influxdata/kapacitor/edge"
+	"github.com/influxdata/kapacitor/pipeline"
+)
+
+// VerifWindow wraps the receiver that WindowNode.newWindow returned for one group.
+type VerifWindow struct {
+	r edge.ForwardReceiver
+}
+
+// VerifNewWindow calls the real WindowNode.newWindow with the given node configuration; `first` is the
+// message that creates the group (its time seeds nextEmit for time windows).
+func VerifNewWindow(first edge.PointMeta, period, every time.Duration, align, fillPeriod bool, periodCount, everyCount int64) (*VerifWindow, error) {
+	n := &WindowNode{w: &pipeline.WindowNode{
+		Period:         period,
+		Every:          every,
+		AlignFlag:      align,
+		FillPeriodFlag: fillPeriod,
+		PeriodCount:    periodCount,
+		EveryCount:     everyCount,
+	}}
+	r, err := n.newWindow(first.GroupInfo(), first)
+	if err != nil {
+		return nil, err
+	}
+	return &VerifWindow{r: r}, nil
+}
+
+// Point delivers a point; the result is the emitted batch or nil.
+func (w *VerifWindow) Point(p edge.PointMessage) (edge.BufferedBatchMessage, error) {
+	return verifWindowOut(w.r.Point(p))
+}
+
+// Barrier delivers a barrier; the result is the emitted batch or nil (a count window forwards the
+// barrier itself, which is reported as nil here).
+func (w *VerifWindow) Barrier(b edge.BarrierMessage) (edge.BufferedBatchMessage, error) {
+	return verifWindowOut(w.r.Barrier(b))
+}
+
+func verifWindowOut(m edge.Message, err error) (edge.BufferedBatchMessage, error) {
+	if err != nil || m == nil {
+		return nil, err
+	}
+	if b, ok := m.(edge.BufferedBatchMessage); ok {
+		return b, nil
+	}
+	return nil, nil
+}
+
+// Ring reports the ring buffer indexes of the window: start, stop, size, len and cap of the backing
+// slice. For a time window also nextEmit (Unix nanoseconds); for a count window nextEmit is the count at
+// which the next batch is due and count is the number of points seen (returned in `aux`).
+func (w *VerifWindow) Ring() (start, stop, size, length, capacity int, nextEmit int64, aux int) {
+	switch x := w.r.(type) {
+	case *windowByTime:
+		return x.buf.start, x.buf.stop, x.buf.size, len(x.buf.window), cap(x.buf.window), x.nextEmit.UnixNano(), 0
+	case *windowByCount:
+		return x.start, x.stop, x.size, len(x.buf), cap(x.buf), int64(x.nextEmit), x.count
+	}
+	return 0, 0, 0, 0, 0, 0, 0
+}
